@@ -1,9 +1,9 @@
-\* metadata: all trees <= 3 nodes, depth <= 3, two prefix-related names, every mode x mtime class
+\* metadata: all trees <= 3 nodes, depth <= 3, two prefix-related names, modes {unset, 0644} x every mtime class
 SPECIFICATION Spec
 CONSTANTS Names <- NamesSmall
           Types <- TypesAll
           Bodies = {"x"}
-          Modes <- ModesAll
+          Modes <- ModesTwo
           Mtimes <- MtimesAll
           MaxNodes = 3
           MaxDepth = 3
